@@ -400,6 +400,6 @@ pub fn rand_hist(r: &mut Rng, typed: bool) -> Hist {
         crate::spell::gen_type(r)
     };
     let name = if r.chance(1, 10) { String::new() } else { rand_value(r) };
-    let n = r.range(0, 12);
+    let n = if r.chance(1, 12) { r.range(12, 40) } else { r.range(0, 12) };
     Hist { ty, name, calls: (0..n).map(|_| rand_call(r, typed)).collect() }
 }
